@@ -107,4 +107,31 @@ same list). -/
 def sorted (l : List Event) : List Event := l.foldr insertSorted []
 
 end EventQueue
+
+/-- One step of a queue history, as the simulator drives it: insert, remove by identity,
+re-time in place followed by `reheapify()`, a bare `reheapify()`, pop. -/
+inductive QOp where
+  | add (e : Event)
+  | remove (eid : Nat)
+  | retime (eid : Nat) (t : Int)
+  | reheapify
+  | pop
+  deriving Repr
+
+/-- State after one operation; an operation that raises leaves the queue as it was
+(`remove_event` of an absent event, `next` on an empty queue). -/
+def QOp.apply (q : EventQueue) : QOp → EventQueue
+  | .add e => q.addEvent e
+  | .remove eid => match q.removeEvent eid with
+    | .ok q' => q'
+    | .error _ => q
+  | .retime eid t => q.retimeReheapify eid t
+  | .reheapify => q.reheapify
+  | .pop => match q.next with
+    | .ok r => r.2
+    | .error _ => q
+
+/-- The queue reached from the empty queue by a history. -/
+def EventQueue.run (ops : List QOp) : EventQueue := ops.foldl QOp.apply EventQueue.empty
+
 end ErdosVerif.Model
